@@ -158,16 +158,23 @@ fn judge_approx(rep: &mut Report, func: &str, args: &[f32], got: f32, exp: f64) 
 fn exact_block(rep: &mut Report, b: &Backend, lo: u32, n: u32) -> bool {
     for k in 0..n {
         let x = f32::from_bits(lo.wrapping_add(k));
-        if !(x.abs() < 2147483648.0) {
-            continue; // outside the representable range (incl. NaN/inf)
-        }
-        let (f, a) = ((b.floor)(x), (b.abs)(x));
-        if f != x.floor() || f.is_nan() {
-            rep.violation(&format!("fp.{BACKEND}.floor_wrong"), format!("[{BACKEND}] floor({x:?}) = {f:?}, expected {:?}", x.floor()), Json::obj().set("backend", BACKEND).set("x", f32s(x)));
+        // abs: every bit pattern. Exactly |x| (the sign of a zero result and
+        // the payload of a NaN are not values, so they are left free)
+        let a = (b.abs)(x);
+        let abs_ok = if x.is_nan() { a.is_nan() } else { a == x.abs() && !(a.is_sign_negative() && a != 0.0) };
+        if !abs_ok {
+            rep.violation(&format!("fp.{BACKEND}.abs_wrong"), format!("[{BACKEND}] abs({x:?}) = {a:?}"), Json::obj().set("backend", BACKEND).set("x", f32s(x)));
             return false;
         }
-        if a.to_bits() != x.abs().to_bits() {
-            rep.violation(&format!("fp.{BACKEND}.abs_wrong"), format!("[{BACKEND}] abs({x:?}) = {a:?}"), Json::obj().set("backend", BACKEND).set("x", f32s(x)));
+        if !x.is_nan() && a.to_bits() != x.abs().to_bits() {
+            rep.add("abs_zero_of_other_sign", 1);
+        }
+        if !(x.abs() < 2147483648.0) {
+            continue; // floor: outside the representable range (incl. NaN/inf)
+        }
+        let f = (b.floor)(x);
+        if f != x.floor() || f.is_nan() {
+            rep.violation(&format!("fp.{BACKEND}.floor_wrong"), format!("[{BACKEND}] floor({x:?}) = {f:?}, expected {:?}", x.floor()), Json::obj().set("backend", BACKEND).set("x", f32s(x)));
             return false;
         }
     }
@@ -299,7 +306,7 @@ fn run(cfg: &Cfg, rep: &mut Report) {
         }
     });
     if full {
-        rep.exhaustive.push("floor and abs on all 2^32 f32 bit patterns (those with |x| < 2^31 judged)".into());
+        rep.exhaustive.push("abs on all 2^32 f32 bit patterns; floor on all of them with |x| < 2^31".into());
     }
 
     // ---- rem_euclid
